@@ -26,7 +26,7 @@ MonInit(cfg) ==
    eclosing |-> {}, emaybe |-> 0,
    expC |-> <<>>, expE |-> <<>>, H |-> {}, stray |-> <<>>,
    rel |-> 0, relwin |-> FALSE,
-   lost |-> FALSE, idleOk |-> FALSE, lastfail |-> <<-1, -1>>, lout |-> [k |-> "none", c |-> -1, args |-> <<>>, why |-> ""], owed |-> {}, rt |-> FALSE,
+   lost |-> FALSE, idleOk |-> FALSE, sctx |-> "", ccalled |-> FALSE, lline |-> <<>>, cprev |-> <<-1>>, eprev |-> <<-1>>, lastfail |-> <<-1, -1>>, lout |-> [k |-> "none", c |-> -1, args |-> <<>>, why |-> ""], owed |-> {}, rt |-> FALSE,
    bad |-> <<>>, ulog |-> <<>>, uncl |-> 0, txns |-> 0, units |-> 0, evs |-> 0, last |-> <<>>]
 
 AddBad(m, p, why) == [m EXCEPT !.bad = IF Len(@) < 12 THEN Append(@, [p |-> p, why |-> why, at |-> m.n, sid |-> m.cfg.sid]) ELSE @,
@@ -34,6 +34,12 @@ AddBad(m, p, why) == [m EXCEPT !.bad = IF Len(@) < 12 THEN Append(@, [p |-> p, w
 \* the monitor cannot tell what should happen (no property decides it): silent until the next quiescent point
 Unclassified(m) == [m EXCEPT !.lost = TRUE, !.uncl = @ + 1,
                                 !.ulog = IF Len(@) < 3 THEN Append(@, [at |-> m.n, sid |-> m.cfg.sid, cph |-> m.cph, eph |-> m.eph, cc |-> m.cc, ec |-> m.ec]) ELSE @]
+
+\* The descriptor with every disable flag cleared: if a line means something else there, a disabled command is visible to it (C09)
+AllEnabled(cfg) == [cfg EXCEPT !.groups = [g \in 1..Len(cfg.groups) |-> [cfg.groups[g] EXCEPT !.disable = FALSE]],
+                               !.cmds = [c \in 1..Len(cfg.cmds) |-> [cfg.cmds[c] EXCEPT !.disable = FALSE]]]
+FlagsMatter(m) == m.lline # <<>> /\ LineOutcome(AllEnabled(m.cfg), m.lline) # LineOutcome(m.cfg, m.lline)
+C02Tag(m) == IF FlagsMatter(m) THEN "C02,C09" ELSE "C02"
 
 CmdStyle(m) == IF m.crl THEN "crlf" ELSE "lf"
 Unit(who, bodies, nl, tag, dep) == [who |-> who, bodies |-> bodies, nl |-> nl, raw |-> FALSE, fin |-> FALSE, exp |-> <<>>, tag |-> tag, last |-> FALSE, dep |-> dep, alt |-> <<>>]
@@ -128,7 +134,7 @@ AdvWrite(m) ==
 
 \* a line's LF has been consumed: start the transaction its bytes call for
 StartTxn(m, o) ==
-  LET m0 == [m EXCEPT !.pend = TRUE, !.txns = @ + 1] IN
+  LET m0 == [m EXCEPT !.pend = TRUE, !.txns = @ + 1, !.ccalled = FALSE] IN
   CASE o.k = "ok" -> ExpectFinal(m0, T_OK, "C01")
     [] o.k = "error" -> ExpectFinal(m0, T_ERROR, ErrTag(o.why))
     [] o.k = "run" -> [m0 EXCEPT !.cph = "run", !.cc = o.c]
@@ -257,7 +263,7 @@ CanAdv(h, b) == h.p < Len(h.r) /\ h.r[h.p + 1] = b
 FinalDone(m, u, body) ==
   LET m1 == [m EXCEPT !.pend = FALSE, !.cph = "idle", !.cc = -1, !.crl = FALSE, !.relwin = FALSE, !.rel = 0]
       m2 == IF body # u.exp /\ m.rt THEN AddBad(m1, "C07", <<"READ output fed back as WRITE arguments was answered", body>>)
-            ELSE IF body # u.exp /\ u.tag # "U" THEN AddBad(m1, u.tag, <<"result code", body, "expected", u.exp>>)
+            ELSE IF body # u.exp /\ u.tag # "U" THEN AddBad(m1, IF u.tag = "C02" THEN C02Tag(m) ELSE u.tag, <<"result code", body, "expected", u.exp>>)
             ELSE IF body # u.exp THEN Unclassified(m1) ELSE m1
       m3 == IF m2.owed # {} /\ ~m2.lost THEN
                LET x == CHOOSE x \in m2.owed : TRUE IN AddBad(m2, VarTag(VarOf(m.cfg, x[1], x[2])), <<"accepted value was not stored", x>>)
@@ -281,14 +287,17 @@ MatchByte(m, b) ==
            H0 == IF fresh THEN StartHyps(m) ELSE m.H
            H1 == {[h EXCEPT !.p = @ + 1] : h \in {h \in H0 : CanAdv(h, b)}}
        IN IF H1 = {} THEN
-             IF fresh /\ m.expC = <<>> /\ m.expE = <<>> THEN [m EXCEPT !.lost = TRUE, !.stray = <<b>>]
+             IF fresh /\ m.expC = <<>> /\ m.expE = <<>> THEN
+                  [m EXCEPT !.lost = TRUE, !.stray = <<b>>,
+                            !.sctx = IF m.pend /\ m.cph \in {"run", "rloop", "tloop", "wloop"} THEN (IF m.ccalled THEN "C10" ELSE C02Tag(m)) ELSE ""]
              ELSE IF fresh THEN
                   IF m.expC # <<>> /\ m.expE = <<>> /\ b \in {CR, LF} THEN AddBad(m, "C20", "newline style of a command response")
                   ELSE AddBad(m, IF m.expC # <<>> /\ m.expE # <<>> THEN "C11" ELSE IF m.expC # <<>> THEN Head(m.expC).tag ELSE Head(m.expE).tag,
                               <<"output does not start an owed unit", b>>)
              ELSE LET h == CHOOSE h \in H0 : TRUE
                       u == IF h.who = "c" THEN Head(m.expC) ELSE Head(m.expE)
-                  IN IF OtherStarts(m, h.who, b) THEN AddBad(m, "C11", <<"unit interrupted by the other producer", b>>)
+                  IN IF OtherStarts(m, h.who, b) THEN
+                        AddBad(m, IF m.expC # <<>> /\ Head(m.expC).fin /\ Head(m.expC).tag = "C14" THEN "C11,C14" ELSE "C11", <<"unit interrupted by the other producer", b>>)
                      ELSE IF h.who = "c" /\ InNl(h) /\ b \in {CR, LF} /\ \A g \in H0 : g.who = "c" THEN AddBad(m, "C20", "newline style of a command response")
                      ELSE IF u.tag = "U" THEN Unclassified(m)
                      ELSE LET k == h.p - h.lo
@@ -309,8 +318,10 @@ StrayVerdict(m) ==
   ELSE LET s == m.stray
            isCode == \E nl \in {<<LF>>, <<CR, LF>>} : \E t \in {T_OK, T_ERROR} : Len(s) >= Len(nl \o t) /\ SubSeq(s, 1, Len(nl \o t)) = nl \o t
            evctx == m.eclosing # {} \/ m.eph # "idle"      \* an event was processed since the last quiescent point: C10 says events emit no result code
-       IN [AddBad(m, IF m.cph = "held" /\ isCode THEN "C14,C01" ELSE IF isCode /\ evctx THEN "C01,C10" ELSE IF isCode THEN "C01" ELSE "C11",
-                  <<"output that nothing owes", s>>) EXCEPT !.stray = <<>>]
+       IN [AddBad(m, IF isCode /\ m.sctx # "" THEN m.sctx
+                     ELSE IF m.cph = "held" /\ isCode THEN "C14,C01" ELSE IF isCode /\ evctx THEN "C01,C10" ELSE IF isCode THEN "C01" ELSE "C11",
+                  IF isCode /\ m.sctx # "" THEN <<"the line was answered although the handler it calls for had not run / had asked to be called again", s>>
+                  ELSE <<"output that nothing owes", s>>) EXCEPT !.stray = <<>>, !.sctx = ""]
 
 (***************************************************************************)
 (* Events                                                                  *)
@@ -327,8 +338,8 @@ OnRd(m, b) ==
              LET full == Append(m1.line, LF)
                  m2 == [m1 EXCEPT !.line = <<>>, !.nb = FALSE, !.lcr = FALSE]
                  o == LineOutcome(m2.cfg, full)
-             IN IF m1.nb /\ ~m2.lost THEN StartTxn([m2 EXCEPT !.crl = m1.lcr, !.lout = o], o)
-                ELSE IF m1.nb THEN [m2 EXCEPT !.lout = o] ELSE m2
+             IN IF m1.nb /\ ~m2.lost THEN StartTxn([m2 EXCEPT !.crl = m1.lcr, !.lout = o, !.lline = full], o)
+                ELSE IF m1.nb THEN [m2 EXCEPT !.lout = o, !.lline = full] ELSE m2
           ELSE [m1 EXCEPT !.line = Append(@, b), !.nb = @ \/ b # CR, !.lcr = @ \/ (b = CR /\ m1.nb)]
 
 RECURSIVE MonNested(_, _, _)
@@ -353,25 +364,26 @@ MonNested(m, ins, src) ==
 \* handler of the command producer
 OnCmdC(m, e) ==
   IF m.cph \notin {"run", "rloop", "tloop", "wloop"} THEN
-     IF m.cph = "idle" THEN AddBad(m, "C02", <<"handler invoked without a command line", e.kind, e.c>>)
+     IF m.cph = "idle" THEN AddBad(m, C02Tag(m), <<"handler invoked without a command line", e.kind, e.c>>)
      ELSE IF m.cph = "held" THEN AddBad(m, "C14", "handler invoked while the command is held")
      ELSE IF m.cph = "final" THEN
           IF Len(m.expC) > 0 /\ m.expC[Len(m.expC)].fin /\ m.expC[Len(m.expC)].tag # "U"
-          THEN AddBad(m, m.expC[Len(m.expC)].tag, <<"handler invoked although the line is to be refused / is finished", e.kind, e.c>>)
+          THEN AddBad(m, IF m.expC[Len(m.expC)].tag = "C02" THEN C02Tag(m) ELSE m.expC[Len(m.expC)].tag, <<"handler invoked although the line is to be refused / is finished", e.kind, e.c>>)
           ELSE Unclassified(m)
      ELSE IF e.c # m.cc THEN AddBad(m, "C02", <<"handler of another command", e.c, m.cc>>)
      ELSE Unclassified(m)
   ELSE LET want == CASE m.cph = "run" -> "run" [] m.cph = "rloop" -> "read" [] m.cph = "tloop" -> "test" [] OTHER -> "write" IN
   IF e.c # m.cc \/ e.kind # want THEN
-     AddBad(m, IF Disabled(m.cfg, e.c) \/ (CmdOf(m.cfg, e.c).only_test /\ e.kind # "test") THEN "C09" ELSE "C02",
+     AddBad(m, IF Disabled(m.cfg, e.c) \/ (CmdOf(m.cfg, e.c).only_test /\ e.kind # "test") THEN "C09" ELSE C02Tag(m),
             <<"wrong handler", e.kind, e.c, "expected", want, m.cc>>)
   ELSE LET argsOk == CASE want = "run" -> TRUE
                        [] want = "write" -> e.data = m.ctxt /\ e.size = Len(m.ctxt) /\ e.nul /\ e.aux = m.cnp
                        [] OTHER -> e.data = m.ctxt /\ e.size = Len(m.ctxt) /\ e.aux = m.cfg.acap
-       IN IF ~argsOk THEN AddBad(m, IF want = "read" /\ e.size = Len(e.data) /\ e.aux = m.cfg.acap THEN (IF e.data = m.cunm THEN "C08" ELSE "C07")
+       IN IF ~argsOk THEN AddBad(m, IF want \in {"read", "test"} /\ e.data = m.cprev THEN "C10"
+                                    ELSE IF want = "read" /\ e.size = Len(e.data) /\ e.aux = m.cfg.acap THEN (IF e.data = m.cunm THEN "C08" ELSE "C07")
                                     ELSE IF want = "test" /\ e.size = Len(e.data) /\ e.aux = m.cfg.acap THEN "C19" ELSE "C06",
                                  <<"handler arguments", e.kind, e.data, e.size, e.aux, "expected", m.ctxt, m.cnp>>)
-  ELSE LET m1 == MonNested(m, e.in, "c")
+  ELSE LET m1 == MonNested([m EXCEPT !.ccalled = TRUE, !.cprev = IF want \in {"read", "test"} /\ e.ret \in {RET_NEXT, RET_DATA_NEXT} /\ e.data2 # e.data THEN e.data2 ELSE <<-1>>], e.in, "c")
            r == e.ret
            dataU == Unit("c", {e.data2}, CmdStyle(m), "C10", -1)
        IN IF m1.lost THEN m1
@@ -397,9 +409,10 @@ OnCmdE(m, e) ==
   ELSE LET want == IF m.eph = "rloop" THEN "read" ELSE "test" IN
   IF e.c # m.ec \/ e.kind # want THEN AddBad(m, "C13", <<"event handler out of order", e.kind, e.c, "expected", want, m.ec>>)
   ELSE IF ~(e.data \in m.etxt /\ e.size = Len(e.data) /\ e.aux = m.cfg.ucap) THEN
-       AddBad(m, IF e.size = Len(e.data) /\ e.aux = m.cfg.ucap THEN (IF want = "read" THEN (IF e.data = m.eunm THEN "C08" ELSE "C07") ELSE "C19") ELSE "C06",
+       AddBad(m, IF e.data = m.eprev THEN "C10"
+                 ELSE IF e.size = Len(e.data) /\ e.aux = m.cfg.ucap THEN (IF want = "read" THEN (IF e.data = m.eunm THEN "C08" ELSE "C07") ELSE "C19") ELSE "C06",
               <<"event handler arguments", e.data, e.size, e.aux, "expected", m.etxt>>)
-  ELSE LET m0 == [m EXCEPT !.emaybe = 0]
+  ELSE LET m0 == [m EXCEPT !.emaybe = 0, !.eprev = IF e.ret \in {RET_NEXT, RET_DATA_NEXT} /\ e.data2 # e.data THEN e.data2 ELSE <<-1>>]
            m1 == MonNested(m0, e.in, "e")
            r == e.ret
            dataU(last) == EvUnit(m, {e.data2}, last, "C10", -1)
@@ -449,6 +462,7 @@ OnMem(m, e) ==
      ELSE IF var.acc = ACC_RO THEN AddBad(m1, "C08", <<"read-only variable modified", e.c, e.v>>)
      ELSE IF Disabled(m.cfg, e.c) THEN AddBad(m1, "C09", <<"variable of a disabled command modified", e.c, e.v>>)
      ELSE IF m.rt THEN AddBad(m1, "C07", <<"round trip changed a value", e.c, e.v, e.before, e.after>>)
+     ELSE IF m.lout.k = "error" /\ m.lout.why = "long" THEN AddBad(m1, IF VarTag(var) = "C04" THEN "C06,C04" ELSE "C06,C05", <<"variable modified by a line that does not fit the working buffer", e.c, e.v, e.after>>)
      ELSE IF e.c # m.cc THEN AddBad(m1, "C02", <<"variable of another command modified", e.c, e.v>>)
      ELSE AddBad(m1, VarTag(var), <<"variable modified although its argument is not acceptable", e.c, e.v, e.after>>)
 
@@ -468,7 +482,7 @@ LightC02(m, e) ==
   LET o == m.lout
       want == CASE o.k = "run" -> "run" [] o.k = "read" -> "read" [] o.k = "write" -> "write" [] o.k = "test" -> "test" [] OTHER -> "none"
   IN IF want = "none" \/ e.c # o.c \/ e.kind # want
-     THEN [m EXCEPT !.bad = IF Len(@) < 12 THEN Append(@, [p |-> "C02", why |-> <<"handler does not belong to the last command line", e.kind, e.c, o.k, o.c>>, at |-> m.n, sid |-> m.cfg.sid]) ELSE @]
+     THEN [m EXCEPT !.bad = IF Len(@) < 12 THEN Append(@, [p |-> C02Tag(m), why |-> <<"handler does not belong to the last command line", e.kind, e.c, o.k, o.c>>, at |-> m.n, sid |-> m.cfg.sid]) ELSE @]
      ELSE m
 
 OnEvent(m, e) ==
